@@ -4,7 +4,7 @@
 (* the universes of Layout.tla:                                            *)
 (*  - ResolveRefsIn's fixed walk: root components by kind (headers,        *)
 (*    parameters, requestBodies, responses, schemas, securitySchemes,      *)
-(*    examples, callbacks -- links are not walked), names sorted, then the *)
+(*    examples, callbacks, links), names sorted, then the                  *)
 (*    paths;                                                               *)
 (*  - resolve<Kind>Ref: a reference whose raw string is in visitedRefs     *)
 (*    (the in-progress set, keyed by the raw ref STRING) is not followed:  *)
@@ -13,8 +13,8 @@
 (*    chain followed (a hop that is itself in progress leaves the whole    *)
 (*    chain nil), the children of the reached object are resolved with     *)
 (*    all hops still in progress, and the strings are popped;              *)
-(*  - positions the walk never visits: parameter/header `examples`,        *)
-(*    encoding `headers`, components.links entries;                        *)
+(*  - (pinned variant only) positions the walk never visits:              *)
+(*    parameter/header `examples`, encoding `headers`, components.links;   *)
 (*  - an object reached a second time keeps the values of its first visit. *)
 (* Value of a site: slot index of the concrete object, 0 = left nil,       *)
 (* -1 = loading fails there (dangling / wrong kind).                       *)
@@ -24,9 +24,12 @@ EXTENDS Layout
 Texts(stack) == {stack[i].text : i \in DOMAIN stack}
 Entry(f, r, kind) == [text |-> RefText(r), f |-> f, r |-> r, kind |-> kind]
 
+(* Before the repairs 9986135 / d78e043 / 326f29b the walk skipped parameter/header `examples`,    *)
+(* encoding `headers` and components.links; LoaderVisitsAll = FALSE gives that pinned resolver.      *)
+CONSTANT LoaderVisitsAll
 UnvisitedSite(ownerKind, site) ==
-   \/ (ownerKind \in {"parameters", "headers"} /\ site = "examples")
-   \/ site = "content.encoding.headers"
+   ~LoaderVisitsAll /\ (\/ (ownerKind \in {"parameters", "headers"} /\ site = "examples")
+                        \/ site = "content.encoding.headers")
 
 (* follow a chain of refs: slot index, 0 (nil) or -1 (error).  hops = entries pushed by this chain. *)
 RECURSIVE Chain(_, _, _, _, _)
@@ -79,6 +82,7 @@ ResolveObject(u, i, stack, memo) ==
    IF ~IsConcrete(u.slots[i].c) THEN memo ELSE ResolveChildren(u, i, 1, stack, memo)
 
 KindOrder == <<"headers", "parameters", "requestBodies", "responses", "schemas", "securitySchemes", "examples", "callbacks">>
+             \o (IF LoaderVisitsAll THEN <<"links">> ELSE <<>>)
 
 (* the root's own component entries of one kind, names sorted; "U" is the root's own reference when it sits in components *)
 NameOrder == <<"A", "Acc", "B", "C", "L", "Rec", "U", "V", "W", "X", "Y">>
